@@ -47,13 +47,18 @@ type facts struct {
 	pipeEmbeds       map[string][]string // pipeline stage struct -> the struct types it embeds
 	pipeMethods      map[string][]string // pipeline stage struct -> the methods it declares itself
 	workerCalls      map[string][]string // pipeline stage struct -> methods its worker calls on the receiver
+	treeCalls        map[string][]string // method of *treeSimple -> the calls t.<part>.<method> in source order
+	ctorReturns      map[string][]string // constructor new… -> the struct types of the composite literals it returns
+	factoryCtors     map[string][]string // factory closure of newTreeSimple -> the constructors it calls
+	simpleMethods    map[string][]string // type …Simple -> the methods declared on it
+	treeFields       map[string][]string // field of the treeSimple literal -> the factory called and its arguments
 }
 
 func main() {
 	repo := flag.String("repo", "/repo", "repository root")
 	out := flag.String("out", "", "output Lean file")
 	flag.Parse()
-	f := &facts{consts: map[string]string{}, errChanCap: map[string]int{}, pkgVarWrites: map[string][]string{}, tagged: map[string]string{}, exitCodes: map[string]int{}, aliasPairs: map[string]bool{}, entryConfig: map[string]string{}, pipeEmbeds: map[string][]string{}, pipeMethods: map[string][]string{}, workerCalls: map[string][]string{}}
+	f := &facts{consts: map[string]string{}, errChanCap: map[string]int{}, pkgVarWrites: map[string][]string{}, tagged: map[string]string{}, exitCodes: map[string]int{}, aliasPairs: map[string]bool{}, entryConfig: map[string]string{}, pipeEmbeds: map[string][]string{}, pipeMethods: map[string][]string{}, workerCalls: map[string][]string{}, treeCalls: map[string][]string{}, ctorReturns: map[string][]string{}, factoryCtors: map[string][]string{}, treeFields: map[string][]string{}, simpleMethods: map[string][]string{}}
 	fset := token.NewFileSet()
 	for _, dir := range []string{*repo, filepath.Join(*repo, "markdown"), filepath.Join(*repo, "cmd", "gtree")} {
 		ents, err := os.ReadDir(dir)
@@ -319,8 +324,86 @@ func guardedSelects(body *ast.BlockStmt) map[ast.Stmt]bool {
 func (f *facts) scanFunc(fset *token.FileSet, rel string, fd *ast.FuncDecl) {
 	name := recvName(fd)
 	where := rel + ":" + name
+	// the parts of the simple tree: which constructors build them, what the constructors return, in which order the
+	// operations of *treeSimple use them
+	if fd.Recv == nil && strings.HasPrefix(fd.Name.Name, "new") && strings.HasSuffix(fd.Name.Name, "Simple") && rel != "simple_tree.go" {
+		ast.Inspect(fd.Body, func(n ast.Node) bool {
+			if u, ok := n.(*ast.UnaryExpr); ok && u.Op == token.AND {
+				if cl, ok := u.X.(*ast.CompositeLit); ok {
+					f.ctorReturns[fd.Name.Name] = append(f.ctorReturns[fd.Name.Name], exprStr(cl.Type))
+				}
+			}
+			if ce, ok := n.(*ast.CallExpr); ok {
+				if idt, ok := ce.Fun.(*ast.Ident); ok && strings.HasPrefix(idt.Name, "new") && strings.HasSuffix(idt.Name, "Simple") {
+					f.ctorReturns[fd.Name.Name] = append(f.ctorReturns[fd.Name.Name], "→"+idt.Name)
+				}
+			}
+			return true
+		})
+	}
+	if fd.Recv == nil && fd.Name.Name == "newTreeSimple" {
+		ast.Inspect(fd.Body, func(n ast.Node) bool {
+			cl, ok := n.(*ast.CompositeLit)
+			if !ok || exprStr(cl.Type) != "treeSimple" {
+				return true
+			}
+			for _, el := range cl.Elts {
+				kv, ok := el.(*ast.KeyValueExpr)
+				if !ok {
+					continue
+				}
+				k := exprStr(kv.Key)
+				if ce, ok := kv.Value.(*ast.CallExpr); ok {
+					f.treeFields[k] = append(f.treeFields[k], exprStr(ce.Fun))
+					for _, a := range ce.Args {
+						f.treeFields[k] = append(f.treeFields[k], exprStr(a))
+					}
+				} else {
+					f.treeFields[k] = append(f.treeFields[k], "?"+exprStr(kv.Value))
+				}
+			}
+			return false
+		})
+		for _, st := range fd.Body.List {
+			as, ok := st.(*ast.AssignStmt)
+			if !ok || len(as.Lhs) != 1 || len(as.Rhs) != 1 {
+				continue
+			}
+			fl, ok := as.Rhs[0].(*ast.FuncLit)
+			if !ok {
+				continue
+			}
+			fname := exprStr(as.Lhs[0])
+			ast.Inspect(fl.Body, func(n ast.Node) bool {
+				if ce, ok := n.(*ast.CallExpr); ok {
+					if idt, ok := ce.Fun.(*ast.Ident); ok && strings.HasPrefix(idt.Name, "new") {
+						f.factoryCtors[fname] = append(f.factoryCtors[fname], idt.Name)
+					}
+				}
+				return true
+			})
+		}
+	}
+	if fd.Recv != nil && len(fd.Recv.List) == 1 && strings.TrimPrefix(exprStr(fd.Recv.List[0].Type), "*") == "treeSimple" && len(fd.Recv.List[0].Names) == 1 {
+		rv := fd.Recv.List[0].Names[0].Name
+		ast.Inspect(fd.Body, func(n ast.Node) bool {
+			if ce, ok := n.(*ast.CallExpr); ok {
+				if se, ok := ce.Fun.(*ast.SelectorExpr); ok {
+					if in, ok := se.X.(*ast.SelectorExpr); ok {
+						if idt, ok := in.X.(*ast.Ident); ok && idt.Name == rv {
+							f.treeCalls[fd.Name.Name] = append(f.treeCalls[fd.Name.Name], in.Sel.Name+"."+se.Sel.Name)
+						}
+					}
+				}
+			}
+			return true
+		})
+	}
 	if fd.Recv != nil && len(fd.Recv.List) == 1 {
 		rt := strings.TrimPrefix(exprStr(fd.Recv.List[0].Type), "*")
+		if strings.HasSuffix(rt, "Simple") {
+			f.simpleMethods[rt] = append(f.simpleMethods[rt], fd.Name.Name)
+		}
 		if strings.HasPrefix(rt, "default") && strings.HasSuffix(rt, "Pipeline") {
 			f.pipeMethods[rt] = append(f.pipeMethods[rt], fd.Name.Name)
 			if fd.Name.Name == "worker" && len(fd.Recv.List[0].Names) == 1 {
@@ -593,6 +676,19 @@ func (f *facts) render() string {
 	w("\n/-- pipeline stage type ↦ the struct types it embeds (whose methods are promoted) -/\ndef pipeEmbeds : List (String × List String) := %s\n", strMap(f.pipeEmbeds))
 	w("/-- pipeline stage type ↦ the methods it declares itself (a promoted method of the same name would be shadowed) -/\ndef pipeMethods : List (String × List String) := %s\n", strMap(f.pipeMethods))
 	w("/-- pipeline stage type ↦ the methods its worker calls on its receiver -/\ndef workerCalls : List (String × List String) := %s\n", strMap(f.workerCalls))
+	ordMap := func(m map[string][]string) string {
+		var l []string
+		for k, v := range m {
+			l = append(l, fmt.Sprintf("(%s, %s)", strconv.Quote(k), leanStrList(v)))
+		}
+		sort.Strings(l)
+		return "[" + strings.Join(l, ", ") + "]"
+	}
+	w("/-- operation of *treeSimple ↦ the calls `t.<part>.<method>` it makes, in source order -/\ndef treeSimpleCalls : List (String × List String) := %s\n", ordMap(f.treeCalls))
+	w("/-- constructor of a part of the simple tree ↦ the struct types of the composite literals it returns (→f: it delegates to constructor f) -/\ndef ctorReturns : List (String × List String) := %s\n", ordMap(f.ctorReturns))
+	w("/-- simple-mode type ↦ the methods declared on it -/\ndef simpleMethods : List (String × List String) := %s\n", strMap(f.simpleMethods))
+	w("/-- field of the treeSimple literal built by newTreeSimple ↦ the factory it calls, then the arguments -/\ndef treeSimpleFields : List (String × List String) := %s\n", ordMap(f.treeFields))
+	w("/-- factory closure of newTreeSimple ↦ the constructors it calls, in source order -/\ndef factoryCtors : List (String × List String) := %s\n", ordMap(f.factoryCtors))
 	var tg []string
 	for k, v := range f.tagged {
 		if strings.HasPrefix(k, "cmd") || strings.HasPrefix(k, "markdown") {
